@@ -189,7 +189,12 @@ def annotate_fn(text, item: Fn, log, where):
                 raise AnchorLost(f"{where}: loop #{k} not found for ghost anchor")
             inserts.append((body_open + loops[k][1] + 1, "\n" + gt + "\n"))
             continue
+        optional = anchor.startswith("?")      # "?text": a hint that is simply dropped when its anchor is gone
+        if optional:
+            anchor = anchor[1:]
         occ = [mt.start() for mt in re.finditer(re.escape(anchor), text)]
+        if optional and len(occ) != 1 and nth is None:
+            continue
         if nth is None:
             if len(occ) != 1:
                 raise AnchorLost(f"{where}: ghost anchor {anchor!r} occurs {len(occ)}x")
